@@ -362,7 +362,9 @@ func Run(r *fw.Run) {
 	// (a2) long structured versions (composed from part lists, well beyond the length bound): unary agreement
 	nums := []string{"0", "1", "9", "10", "01", "18446744073709551615", "18446744073709551616", "100000000000000000000000000000", "00"}
 	pparts := []string{"", "-0", "-1", "-a", "-a.b", "-0.a", "-a-b", "-rc-10", "-rc-9", "-01", "-a..b", "-a.", "-", "-20190101000000-abcdefabcdef", "-0.20190101000000-abcdefabcdef", "-alpha.beta.gamma.delta.1.2.3", "-" + strings.Repeat("x", 70), "-é"}
-	bparts := []string{"", "+a", "+incompatible", "+meta-data", "+a.b-c.01", "+", "+a..b", "+a+b", "+" + strings.Repeat("9", 40)}
+	bparts := []string{"", "+a", "+incompatible", "+meta-data", "+a.b-c.01", "+", "+a..b", "+a+b", "+" + strings.Repeat("9", 40),
+		// the one build tag with a meaning elsewhere, continued, cut short and re-cased (all plain metadata here)
+		"+incompatible.1", "+incompatible-fork", "+incompatible2", "+incompatibl", "+Incompatible", "+incompatible.", "+x.incompatible", "+incompatible+incompatible"}
 	var longs []string
 	for _, a := range nums {
 		for _, b := range nums {
